@@ -25,6 +25,7 @@ type Oracle struct {
 	cutStop    bool // a shutdown died between two cache files
 	tampered   bool // a cache file was truncated by hand (not a crash): start-up may then fail in LoadCache
 	earlyEmpty bool // an empty batch older than the last block was handed out
+	Peeks      int  // reads made by a client of the node while the execution layer worked
 }
 
 type batchRec struct {
@@ -141,9 +142,97 @@ func (o *Oracle) afterCrash(idx int, it Item, obs Obs) {
 	}
 }
 
+// reader is a client of the running node (RPC GetBlock, DA submitter, header exchange) that reads, through the
+// node's own store and at an instant of its choosing — here: while the execution layer works on block h, i.e.
+// between the early and the final save — the height being produced and the one below it.
+func (o *Oracle) reader(h uint64) {
+	o.Peeks++
+	for _, n := range []uint64{h, h - 1} {
+		if n >= o.w.Cfg.Initial {
+			o.served(-1, n, false, "while the execution layer worked on height "+fmt.Sprint(h))
+		}
+	}
+}
+
+// served evaluates the property on the block the node EXPOSES at height n: what a reader gets from the store
+// object the node runs on (GetBlockData, GetHeader, GetBlockByHash, GetSignature, GetSignatureByHash), which
+// must also be what a freshly opened store (a restarted process) reads from the datastore.  A committed height
+// must hold a header that carries the proposer's signature over itself, the same signature as the signature
+// record, and passes SignedHeader.ValidateBasic — on exactly what the store returns.
+func (o *Oracle) served(idx int, n uint64, committed bool, when string) {
+	w := o.w
+	live := w.Store()
+	pb, sh, d := w.BlockVia(live, n)
+	pd, _, _ := w.BlockVia(w.Disk(), n)
+	if !pb.Eq(pd) {
+		o.fail("served-differs-from-durable", fmt.Sprintf("%s: the node's store serves %+v at height %d, the datastore holds %+v", when, pb, n, pd))
+	}
+	if !pb.Present {
+		if committed {
+			o.fail(o.cause("committed-block-missing"), fmt.Sprintf("%s: committed height %d has no block", when, n))
+		}
+		return
+	}
+	// every read path returns the same record
+	hash := sh.Hash()
+	if h2, err := live.GetHeader(w.ctx, n); err != nil || !bytes.Equal(h2.Hash(), hash) || !bytes.Equal(h2.Signature, sh.Signature) {
+		o.fail("store-read-paths-disagree", fmt.Sprintf("%s: GetHeader(%d) and GetBlockData(%d) return different signed headers (err %v)", when, n, n, err))
+	}
+	if h3, d3, err := live.GetBlockByHash(w.ctx, hash); err != nil || !bytes.Equal(h3.Hash(), hash) || !bytes.Equal(h3.Signature, sh.Signature) || !bytes.Equal(d3.Hash(), d.Hash()) {
+		o.fail("store-read-paths-disagree", fmt.Sprintf("%s: GetBlockByHash(hash of %d) and GetBlockData(%d) return different blocks (err %v)", when, n, n, err))
+	}
+	s1, e1 := live.GetSignature(w.ctx, n)
+	s2, e2 := live.GetSignatureByHash(w.ctx, hash)
+	if (e1 == nil) != (e2 == nil) || (e1 == nil && !bytes.Equal(*s1, *s2)) {
+		o.fail("store-read-paths-disagree", fmt.Sprintf("%s: GetSignature(%d) and GetSignatureByHash differ (err %v / %v)", when, n, e1, e2))
+	}
+	if !committed {
+		return
+	}
+	if pb.H != n {
+		o.fail(o.cause("wrong-height"), fmt.Sprintf("%s: height %d serves a header of height %d", when, n, pb.H))
+	}
+	if pb.HSig != 1 || !pb.SignOk || !pb.PropOk || pb.SSig != 1 || !pb.ChainOk {
+		o.fail(o.cause("not-signed-by-proposer"), fmt.Sprintf("%s: committed height %d as served by the store: header signature class %d (1 = verifies), signer ok %v, proposer ok %v, signature record class %d (1 = equals the header's), chain ok %v",
+			when, n, pb.HSig, pb.SignOk, pb.PropOk, pb.SSig, pb.ChainOk))
+	}
+	if !pb.VBasic {
+		o.fail(o.cause("validate-fails"), fmt.Sprintf("%s: committed height %d as served by the store: ValidateBasic: %v", when, n, sh.ValidateBasic()))
+	}
+}
+
+// after every item (also failed, skipped and crashed ones): the served view of the heights near the tip, of the
+// pending height, of every height written by the item and of two older heights chosen by the item number
+func (o *Oracle) servedAfter(idx int, obs Obs) {
+	ini, H := o.w.Cfg.Initial, obs.Height
+	seen := map[uint64]bool{}
+	look := func(n uint64) {
+		if n < ini || n > H+1 || seen[n] {
+			return
+		}
+		seen[n] = true
+		o.served(idx, n, n <= H, fmt.Sprintf("after item %d", idx))
+	}
+	for n := H + 1; n+4 > H+1 && n >= ini; n-- {
+		look(n)
+	}
+	for _, s := range obs.Writes {
+		var n uint64
+		if _, err := fmt.Sscanf(s, "block:%d", &n); err == nil {
+			look(n)
+		}
+	}
+	if H >= ini {
+		span := H - ini + 1
+		look(ini + uint64(idx*7919)%span)
+		look(ini + uint64(idx*104729+13)%span)
+	}
+}
+
 // after every item: C04 (i)-(iii) on the durable store
 func (o *Oracle) afterAny(idx int, it Item, obs Obs) {
 	ini := o.w.Cfg.Initial
+	o.servedAfter(idx, obs)
 	// (i) recorded height, recorded state and stored blocks agree — the property speaks of the node
 	// "after restart", so this is evaluated while a process runs (after a successful boot and after every
 	// step of it), not on the image a dead process left behind
@@ -206,6 +295,7 @@ func (o *Oracle) final() {
 			o.fail(o.cause("committed-block-missing"), fmt.Sprintf("height %d of [%d,%d] has no block", n, ini, h))
 			return
 		}
+		o.served(-1, n, true, "at the end")
 		bad := func(sig, f string, a ...interface{}) {
 			o.fail(o.cause(sig), fmt.Sprintf("height %d: ", n)+fmt.Sprintf(f, a...))
 		}
